@@ -121,10 +121,15 @@ func walkKindsRule(R string) RuleFunc {
 			for k := range f.kinds {
 				kinds[k] = true
 			}
+			groupReason := walkTable[nm]
 			for g := range reach(o, 3) {
 				if gf := funcs[g]; gf != nil && (g == o || reach(g, 3)[o]) {
 					for k := range gf.kinds {
 						kinds[k] = true
+					}
+					// a tabled walker keeps its reason when its loop moves into a helper of its recursion group
+					if r := walkTable[core.DeclName(gf.d.Pkg, gf.d.Decl)]; r != "" && groupReason == "" {
+						groupReason = r + " [walker " + core.DeclName(gf.d.Pkg, gf.d.Decl) + " of the same recursion group]"
 					}
 				}
 			}
@@ -139,8 +144,8 @@ func walkKindsRule(R string) RuleFunc {
 			switch {
 			case all:
 				c.OK(R, nm+":walk", pos, what)
-			case walkTable[nm] != "":
-				c.Tabled(R, nm+":walk", pos, what, walkTable[nm])
+			case groupReason != "":
+				c.Tabled(R, nm+":walk", pos, what, groupReason)
 			default:
 				c.Bad(R, nm+":walk", pos, what, "the walk does not descend into every kind of branch node: nodes below the other kind (array items / object properties) are never visited")
 			}
